@@ -249,6 +249,22 @@ def impl_build(built, d, a, rng=None):
 
 
 def impl_rt(mdefs_by_name, msg):
+    """`impl_rt_unguarded` under a time limit: a decoder that does not come back is an observation, not a hang of the check"""
+    try:
+        with fc.time_limit(20):
+            return impl_rt_unguarded(mdefs_by_name, msg)
+    except (fc.CaseTimeout, MemoryError) as e:
+        r = {}
+        try:
+            r['bytes'] = bytes(msg.to_bytes()[1])
+            r['n'] = len(r['bytes'])
+        except Exception:  # noqa
+            return {'enc_err': 'timeout'}
+        r['dec_err'] = 'timeout' if isinstance(e, fc.CaseTimeout) else 'memory'
+        return r
+
+
+def impl_rt_unguarded(mdefs_by_name, msg):
     """encode, decode through the base class, compare, re-encode — everything the property speaks about"""
     fix = fc.fixmod()
     r = {}
@@ -737,7 +753,8 @@ def execute_plan(ctx, rng, plan):
             ctx.case('dec ' + b[:60].hex(), nontrivial=True, sample_every=0)
             rep = {'kind': 'dec', 'reg': [sx(fc.mdef_sx(x)) for x in mdefs], 'bytes': b.hex()}
             try:
-                k, dec = fix.Message.from_bytes(b)
+                with fc.time_limit(20):
+                    k, dec = fix.Message.from_bytes(b)
                 name = getattr(type(dec), 'Name', '?')
                 if name not in by_name:
                     ctx.count('dec:stale-class')
